@@ -193,3 +193,71 @@ Print Assumptions C14_lattice_roundtrip_pinned_flat.
 Print Assumptions C14_lattice_roundtrip_repaired.
 Print Assumptions C14_classes_ok_refuted.
 Print Assumptions C14_exception_list_is_exact.
+
+(** ---- names as dictionary KEYS of the file (model: Ops/JsonKeys.v; added after seeded change C14-6).
+    Every element / segment name reaches the file through the hand-written line of CompactJSONEncoder.encode,
+    [json.dumps(key)], and comes back through the JSON string-literal parser.  [save_text enc] is the converter followed
+    by writing every key of the "elements" and "lattices" tables as the text [enc key]; [load_text dec] reads every key
+    text back with [dec] ([None] = not valid JSON) and then parses as before.  Strings are byte strings. *)
+From Coq Require Import Ascii NArith.
+From Cheetah Require Import Ops.JsonKeys Ops.JsonKeysProofs.
+
+Section C14_keys.
+(* ANY key writer and key reader such that the reader inverts the writer *)
+Variables (encode_key : string -> string) (decode_key : string -> option string).
+Hypothesis decode_encode : forall k, decode_key (encode_key k) = Some k.
+Variables (P J : Type) (sv : P -> J) (ld : string -> J -> option P).
+
+(* what is assumed of the key writer is exactly that hypothesis: then every uniquely named lattice, whatever characters its
+   names contain, comes back from the written file *)
+Theorem C14_text_roundtrip : forall n ts fuel,
+  NoDup (names (Sg n ts)) ->
+  (forall m p, In (m, p) (payloads (Sg n ts)) -> ld m (sv p) = Some p) ->
+  depth (Sg n ts) <= fuel ->
+  load_text decode_key P J ld fuel (save_text encode_key P J sv (Sg n ts)) = Some (Sg n ts).
+Proof. exact (text_roundtrip encode_key decode_key decode_encode P J sv ld). Qed.
+
+(* in particular two different names never get the same key text *)
+Theorem C14_encode_key_injective : forall a b, encode_key a = encode_key b -> a = b.
+Proof. exact (encode_key_injective encode_key decode_key decode_encode). Qed.
+End C14_keys.
+
+(* the transcription of json.dumps(key) / of the JSON string-literal parser satisfies the hypothesis for EVERY byte string:
+   quotes, backslashes, control characters, non-ASCII bytes, the empty string, JSON keywords, any length *)
+Theorem C14_json_key_codec_roundtrip : forall s : string, json_decode_key (json_encode_key s) = Some s.
+Proof. exact json_codec_roundtrip. Qed.
+
+Theorem C14_text_roundtrip_json : forall (P J : Type) (sv : P -> J) (ld : string -> J -> option P) n ts fuel,
+  NoDup (names (Sg n ts)) ->
+  (forall m p, In (m, p) (payloads (Sg n ts)) -> ld m (sv p) = Some p) ->
+  depth (Sg n ts) <= fuel ->
+  load_text json_decode_key P J ld fuel (save_text json_encode_key P J sv (Sg n ts)) = Some (Sg n ts).
+Proof. exact text_roundtrip_json. Qed.
+
+(* the writer of seeded change C14-6 ([raw_key k] = the key between two quotes, nothing escaped) does not satisfy it:
+   B,P,M,backslash,t,1 is read back as B,P,M,TAB,1 and  arc "A"  is not a JSON string at all *)
+Theorem C14_raw_key_refuted :
+  json_decode_key (raw_key (sb [66; 80; 77; 92; 116; 49]%N)) = Some (sb [66; 80; 77; 9; 49]%N) /\
+  sb [66; 80; 77; 9; 49]%N <> sb [66; 80; 77; 92; 116; 49]%N /\
+  json_decode_key (raw_key (sb [97; 114; 99; 32; 34; 65; 34]%N)) = None /\
+  json_decode_key (json_encode_key (sb [66; 80; 77; 92; 116; 49]%N)) = Some (sb [66; 80; 77; 92; 116; 49]%N) /\
+  json_decode_key (json_encode_key (sb [97; 114; 99; 32; 34; 65; 34]%N)) = Some (sb [97; 114; 99; 32; 34; 65; 34]%N).
+Proof. exact raw_key_refuted. Qed.
+
+(* ... and whole lattices with such names are not reproduced through it, while the escaping writer reproduces them *)
+Example C14_raw_key_roundtrip_refuted :
+  NoDup (names witness_names) /\ NoDup (names witness_backslash) /\
+  sk_load_text json_decode_key 5 (sk_save_text raw_key witness_names) = None /\
+  (let '(_, Etxt, _) := sk_save_text raw_key witness_backslash in
+   option_map (map fst) (read_keys json_decode_key Etxt)) = Some ["D1"; name_tab] /\
+  sk_load_text json_decode_key 5 (sk_save_text raw_key witness_backslash) = None /\
+  sk_load_text json_decode_key 5 (sk_save_text json_encode_key witness_names) = Some witness_names /\
+  sk_load_text json_decode_key 5 (sk_save_text json_encode_key witness_backslash) = Some witness_backslash.
+Proof. exact raw_key_roundtrip_refuted. Qed.
+
+Print Assumptions C14_text_roundtrip.
+Print Assumptions C14_encode_key_injective.
+Print Assumptions C14_json_key_codec_roundtrip.
+Print Assumptions C14_text_roundtrip_json.
+Print Assumptions C14_raw_key_refuted.
+Print Assumptions C14_raw_key_roundtrip_refuted.
